@@ -68,6 +68,7 @@ var roSpace = append(engine.Space{
 	engine.D("state", carried...),
 	engine.D("nonce", carried...),
 	engine.D("extra", "none", "response_mode", "prompt", "code_challenge"), // parameters carried only inside the object
+	engine.D("values", "simple", "special"), // state / nonce of the object: plain tokens, or characters that need escaping in URLs and JSON
 	engine.D("method", "GET", "POST"),
 	engine.D("signer", "private_key_jwt-RS256", "basic-RS256", "post-RS256", "public-RS256", "private_key_jwt-ES256"),
 	engine.D("aud", "array", "string", "multi"),
@@ -199,8 +200,11 @@ const (
 
 // the value a parameter has inside the object (and outside when carried "outside"/"both")
 // and the differing outer value of shape "differ"
-func roValues(cid string) (inner, differ map[string]string) {
+func roValues(cid, alphabet string) (inner, differ map[string]string) {
 	inner = map[string]string{"client_id": cid, "response_type": "code", "scope": "openid profile", "redirect_uri": "https://rp.example/cb", "state": "st-object", "nonce": "n-object"}
+	if alphabet == "special" {
+		inner["state"], inner["nonce"] = "st ob+j%26&#=/?:@\u00e9\"<", " n ob+j%26&#=/?:@\u00e9\" "
+	}
 	differ = map[string]string{"client_id": "web", "response_type": "id_token", "scope": "openid email", "redirect_uri": "https://rp.example/cb2", "state": "st-query", "nonce": "n-query"}
 	return
 }
@@ -224,7 +228,7 @@ func roCase(v engine.Vec) engine.Result {
 	signer := g("signer")
 	kind := signer[:strings.LastIndex(signer, "-")]
 	cid := honourClients[kind]
-	inner, differ := roValues(cid)
+	inner, differ := roValues(cid, g("values"))
 
 	outer := url.Values{}
 	claims := map[string]any{"iss": cid, "aud": audValue(g("aud"), e.issuer)}
@@ -335,7 +339,7 @@ func roCase(v engine.Vec) engine.Result {
 	}
 	params := loc.Query()
 	if want["response_mode"] == "fragment" {
-		params, _ = url.ParseQuery(loc.Fragment)
+		params, _ = url.ParseQuery(loc.EscapedFragment())
 	}
 	back := loc.Scheme + "://" + loc.Host + loc.Path
 	if back != want["redirect_uri"] || params.Get("code") == "" || params.Get("state") != want["state"] {
